@@ -50,6 +50,11 @@ def describe(f):
     return d
 
 
+def window1(kw):
+    """does this parameter set put a window knob at 1 (the degenerate smallest window)?"""
+    return any(v == 1 and any(t in k for t in ('period', 'length', 'window', 'lookback')) for k, v in (kw or {}).items())
+
+
 def variants(name, f, rng, n_extra=2):
     """parameter dicts to call `f` with: {} (defaults) first, then a few non-default ones found from the
     signature: integer knobs moved to other values >= 2, matype knobs to other averages, float knobs scaled,
@@ -84,6 +89,13 @@ def variants(name, f, rng, n_extra=2):
             for alt in range(0, 5):
                 if alt != v:
                     out.append({k: alt})
+    # the smallest windows (1, 2, 3): where a warm-up mask, a shift or a roll no longer hides the first / last rows;
+    # one knob at a time, all others at their defaults (a value the function rejects is dropped by the caller)
+    for k in ints:
+        if d['numeric'][k] >= 2 and any(t in k for t in ('period', 'length', 'window', 'lookback')):
+            for small in (1, 2, 3):
+                if small != d['numeric'][k]:
+                    out.append({k: small})
     # every indicator that smooths through ma(): the common averages once each, all other knobs at their defaults
     for mt in (1, 2, 3):
         if mats:
